@@ -20,6 +20,13 @@ pub struct ExAuth(Auth);
 #[verifier::external_type_specification]
 pub struct ExShare(Share);
 
+#[verifier::external_type_specification]
+pub struct ExChanErrorKind(crate::channel::ErrorKind);
+#[verifier::external_type_specification]
+pub struct ExChanError(crate::channel::Error);
+#[verifier::external_type_specification]
+pub struct ExFaandError(crate::mpc::faand::Error);
+
 // ---------------------------------------------------------------- mathematical definitions (DESIGN §4)
 pub open spec fn dmask(b: bool, d: u128) -> u128 { if b { d } else { 0 } }
 
@@ -32,6 +39,11 @@ pub open spec fn min_nat(a: nat, b: nat) -> nat { if a <= b { a } else { b } }
 pub open(crate) spec fn xor_mk(a: Seq<(Mac, Key)>, b: Seq<(Mac, Key)>) -> Seq<(Mac, Key)> {
     Seq::new(min_nat(a.len(), b.len()), |k: int| (Mac(a[k].0.0 ^ b[k].0.0), Key(a[k].1.0 ^ b[k].1.0)))
 }
+
+/// accessors usable in the contracts of *public* (trait) functions
+pub open(crate) spec fn auth_seq(a: Auth) -> Seq<(Mac, Key)> { a.0@ }
+pub open(crate) spec fn share_bit(s: Share) -> bool { s.0 }
+pub open(crate) spec fn share_seq(s: Share) -> Seq<(Mac, Key)> { s.1.0@ }
 
 /// `r` is the share-wise XOR of `a` and `b`
 pub open(crate) spec fn is_xor_share(a: Share, b: Share, r: Share) -> bool {
@@ -98,6 +110,21 @@ impl<'a> BitXorSpecImpl<&'a Share> for &'a Share {
     open(crate) spec fn obeys_bitxor_spec() -> bool { false }
     open(crate) spec fn bitxor_req(self, rhs: &'a Share) -> bool { true }
     open(crate) spec fn bitxor_spec(self, rhs: &'a Share) -> Share { arbitrary() }
+}
+
+// `#[derive(Clone, Copy)]` on plain data is the identity (trusted: derive semantics)
+pub assume_specification[ <Mac as Clone>::clone ](m: &Mac) -> (r: Mac) ensures r == *m;
+pub assume_specification[ <Key as Clone>::clone ](m: &Key) -> (r: Key) ensures r == *m;
+pub assume_specification[ <Delta as Clone>::clone ](m: &Delta) -> (r: Delta) ensures r == *m;
+pub assume_specification[ <Label as Clone>::clone ](m: &Label) -> (r: Label) ensures r == *m;
+
+/// Rule N12 target: `vec![x; n]`. Trusted: std's `from_elem` yields n clones and `Clone` of the
+/// plain-data element types used by the engine is the identity.
+#[verifier::external_body]
+pub fn pv_vec_repeat<T: Clone>(x: T, n: usize) -> (v: Vec<T>)
+    ensures v.len() == n, forall|k: int| 0 <= k < n ==> v@[k] == x,
+{
+    vec![x; n]
 }
 
 // ---------------------------------------------------------------- bit-vector facts used everywhere
